@@ -299,8 +299,11 @@ def load_known_findings(pid):
 
 
 def write_evidence(pid, ev):
-    os.makedirs(os.path.join(ROOT, "evidence"), exist_ok=True)
-    p = os.path.join(ROOT, "evidence", f"{pid}.json")
+    # VERIF_EVIDENCE_DIR: used only when the checks are pointed at a scratch copy of the repository
+    # (seeded-change experiments), so that those runs do not overwrite the evidence of /repo itself
+    evdir = os.environ.get("VERIF_EVIDENCE_DIR") or os.path.join(ROOT, "evidence")
+    os.makedirs(evdir, exist_ok=True)
+    p = os.path.join(evdir, f"{pid}.json")
     schema_p = "/root/.vp/EVIDENCE.schema.json"
     if not os.path.exists(schema_p):
         schema_p = os.path.join(ROOT, "harness", "EVIDENCE.schema.json")
